@@ -60,6 +60,90 @@ pub fn dispatch(a: &[String]) -> String {
         Err(e) => format!("ERR {}", e),
       }
     }
+    "type_rel" => {
+      let t1 = parse_type(&mut a[1].chars().peekable());
+      let t2 = parse_type(&mut a[2].chars().peekable());
+      format!("equiv={} conf={}", t1.is_equivalent(&t2), t1.is_conformant(&t2))
+    }
+    "coerce" => {
+      // coerce <type code> <feel expression>: value, its type, conformance to the target, coercion again
+      let t = parse_type(&mut a[1].chars().peekable());
+      let scope = dmntk_feel::Scope::default();
+      let node = dmntk_feel_parser::parse_expression(&scope, &a[2], false).unwrap();
+      let v = dmntk_feel_evaluator::evaluate(&scope, &node).unwrap();
+      let c = t.coerced(&v);
+      let again = t.coerced(&c);
+      format!(
+        "value={} coerced={} null={} conforms={} idempotent={}",
+        v,
+        c,
+        c.is_null(),
+        c.type_of().is_conformant(&t),
+        format!("{}", again) == format!("{}", c)
+      )
+    }
     _ => format!("UNKNOWN-COMMAND {}", a[0]),
+  }
+}
+
+
+/// Type codes: A any, B boolean, D date, T date and time, Y days and time duration, U null, N number, S string, M time,
+/// Z years and months duration, L(t) list, R(t) range, F(p,..;r) function, C(k:t,..) context.
+pub fn parse_type(it: &mut std::iter::Peekable<std::str::Chars>) -> dmntk_feel::FeelType {
+  use dmntk_feel::FeelType;
+  let c = it.next().unwrap();
+  match c {
+    'A' => FeelType::Any,
+    'B' => FeelType::Boolean,
+    'D' => FeelType::Date,
+    'T' => FeelType::DateTime,
+    'Y' => FeelType::DaysAndTimeDuration,
+    'U' => FeelType::Null,
+    'N' => FeelType::Number,
+    'S' => FeelType::String,
+    'M' => FeelType::Time,
+    'Z' => FeelType::YearsAndMonthsDuration,
+    'L' | 'R' => {
+      it.next();
+      let inner = parse_type(it);
+      it.next();
+      if c == 'L' {
+        FeelType::List(Box::new(inner))
+      } else {
+        FeelType::Range(Box::new(inner))
+      }
+    }
+    'F' => {
+      it.next();
+      let mut params = vec![];
+      while *it.peek().unwrap() != ';' {
+        params.push(parse_type(it));
+        if *it.peek().unwrap() == ',' {
+          it.next();
+        }
+      }
+      it.next();
+      let result = parse_type(it);
+      it.next();
+      FeelType::Function(params, Box::new(result))
+    }
+    'C' => {
+      it.next();
+      let mut entries = std::collections::BTreeMap::new();
+      while *it.peek().unwrap() != ')' {
+        let mut key = String::new();
+        while *it.peek().unwrap() != ':' {
+          key.push(it.next().unwrap());
+        }
+        it.next();
+        entries.insert(dmntk_feel::Name::from(key.as_str()), parse_type(it));
+        if *it.peek().unwrap() == ',' {
+          it.next();
+        }
+      }
+      it.next();
+      FeelType::Context(entries)
+    }
+    other => panic!("bad type code {}", other),
   }
 }
